@@ -1,4 +1,5 @@
 #include "logger.h"
+#include "verif_hooks.h"
 
 #include <mutex>
 
@@ -7,10 +8,16 @@ std::ostream& operator<<(std::ostream& os, SyncCout sc) {
   static std::mutex m;
 
   if (sc == IO_LOCK)
+  {
       m.lock();
+      VERIF_POINT(IO_LOCKED, nullptr, nullptr, nullptr);
+  }
 
   if (sc == IO_UNLOCK)
+  {
+      VERIF_POINT(IO_UNLOCKING, nullptr, nullptr, nullptr);
       m.unlock();
+  }
 
   return os;
 }
